@@ -8,7 +8,8 @@
    diffing).  pm_rand_check evaluates the PROVED characterisation (Spec/RandSpec.v: valid_gen,
    valid_parts, the range / length / count predicates) on every observed draw:
    1 holds, 0 fails, 2 outside the quantifier.  Ops and argument layouts: harness/src/suites/rand.rs. *)
-From Coq Require Import ZArith String List Bool.
+From Coq Require Import ZArith String List Bool Lia.
+From Flocq Require Import IEEE754.BinarySingleNaN IEEE754.Binary IEEE754.Bits Core.
 From PushModel Require Import Base.Sx Base.Machine Base.ListOps Base.F32 Base.F32Flocq Model.Item Model.GraphT Model.State
   Model.InstrBase Model.Registry Model.RandomGen Model.IRand Model.RegistryRand Spec.RandSpec Proofs.RandVec
   Suites.SItem Suites.SState.
@@ -296,3 +297,24 @@ Example rand_nbits_sane_grid :
              [0; 1008981770; 1048576000; 1056964608; 1057132380; 1061158912; 1065353216; 2147483648])
           [0; 1; 2; 3; 7; 64; 200; 100000; 2147483646] = true.
 Proof. vm_compute. reflexivity. Qed.
+
+(* For the executable IEEE instance the interval of C13_float_rand_in_range is the plain one:
+   f_in_range's first disjunct (bit equality with min) implies min <= x < max there, because a
+   float that compares Lt with something is not a NaN and therefore compares Eq with itself. *)
+Lemma b32_compare_lt_refl (x y : binary32) : b32_compare x y = Some Lt -> b32_compare x x = Some Eq.
+Proof.
+  unfold b32_compare.
+  destruct x as [s|s|s pl H|s m e H]; destruct y as [s'|s'|s' pl' H'|s' m' e' H']; cbn; try discriminate; intros _;
+    try (destruct s; reflexivity).
+  all: try (rewrite Z.compare_refl, Pos.compare_refl; destruct s; reflexivity).
+Qed.
+Lemma flocq_f_in_range tab lo hi x :
+  let FO := flocq_ops tab in
+  flt lo hi = true -> f_in_range lo hi x = true -> fle lo x && flt x hi = true.
+Proof.
+  intros FO Hlt H. unfold f_in_range in H. apply orb_true_iff in H as [H|H]; [|exact H].
+  apply Z.eqb_eq in H. subst x. rewrite Hlt, andb_true_r.
+  unfold flt, fle in *. cbn [fcmp FO flocq_ops] in *. unfold fl_cmp in *.
+  destruct (b32_compare (of_bits lo) (of_bits hi)) as [[| |]|] eqn:E; try discriminate.
+  now rewrite (b32_compare_lt_refl _ _ E).
+Qed.
